@@ -22,6 +22,15 @@ def adversarial(be, rng):
         out.append(("adversarial", enc_f64(5e-324)))
         out.append(("adversarial", enc_f64(1.7976931348623157e308)))
         out.append(("adversarial", enc_f64(9007199254740993.0)))
+        # the layout thresholds of the JSON number text (positional between 1e-5 and 1e16, `.0` for integers,
+        # exponent form outside) and values whose shortest digits end in zeros
+        for x in (1e15, 1e16, 1e17, 9999999999999998.0, 1.2345678901234567e16, 123456789012345680000.0, 1e-4, 1e-5,
+                  1e-6, 9.999999999999999e-6, 0.00001234, 1e21, 1e22, 1e23, 5e22, 120.0, 1200000.0, 0.5, -0.0, 0.0, 7.0):
+            out.append(("layout", enc_f64(x if rng.chance(3, 4) else -x)))
+        for _ in range(4):
+            out.append(("layout", enc_f64(float(rng.below(10 ** (1 + rng.below(17)))) * 10.0 ** (rng.below(40) - 20))))
+        for _ in range(3):   # two shortest candidates exactly equally close (ryu keeps the even digit, Display the upper)
+            out.append(("short-tie", enc_f64(float((1 << 49) + rng.below(1 << 49)) + [0.25, 0.75][rng.below(2)])))
     else:
         out.append(("adversarial", enc_dec(123456789012345678, 18)))
         out.append(("adversarial", enc_dec(-1, 18)))
